@@ -3,6 +3,7 @@
 C19.maps    forward/reverse property maps agree pairwise; transforms reversed in mirrored order; filters/meta agree
 C19.ctor    every serialised Config attribute is a constructor parameter mapped to its own attribute; accessors
 C19.ext     extension / type maps cover both formats; the profile file name is one the loader tries
+C19.detect  trial-parse detection: a format tried earlier rejects the documents of the formats tried later
 C19.atomic  the profile save path writes a temporary file and renames it over the target
 C19.dir     the directory of the file being created is ensured (abstract path algebra)
 C19.mode    text is written to text-mode files
@@ -239,6 +240,54 @@ def rule_ext(ctx):
     ctx.check("C19.ext", ok, where(MGR, "ConfigManager.guess_type", gt.lineno), "format detection by extension, else by trial parse", "files without a known extension must be detected by trial parsing with every format", "extension, then trial parse")
 
 
+def rule_detect(ctx):
+    """format auto-detection of extension-less files is a trial parse in the order of TYPES: every format tried before
+    another one must REJECT that other format's documents.  For the key=value parser (tried before JSON) that means: a
+    non-comment line without '=' raises - every path through the per-line body reads the second half of the split."""
+    from ..cfg import CFG as _CFG, edge_region
+    repo = ctx.repo
+    cls = repo.cls(MGR, "ConfigManager")
+    k, te = repo.class_const(cls, "TYPES")
+    order = [repo.resolve_expr_class(cls.module, v) for v in te.values] if isinstance(te, ast.Dict) else []
+    w = where(MGR, "ConfigManager.guess_type", None)
+    if not order or None in order:
+        ctx.undecided("C19.detect", w, "TYPES", "trial-parse order not a literal dict of transform classes")
+        return
+    gt = repo.method(MGR, "ConfigManager", "guess_type")
+    # the trial loop: reverse() inside try, a handler that lets the loop go on
+    loops = [n for n in ast.walk(gt) if isinstance(n, ast.For) and "TYPES" in unparse(n.iter)]
+    tries = [t for l in loops for t in ast.walk(l) if isinstance(t, ast.Try) and calls_named(t, "reverse")]
+    ok = len(loops) == 1 and len(tries) == 1 and all(not any(isinstance(x, (ast.Raise, ast.Return, ast.Break)) for x in ast.walk(h)) for h in tries[0].handlers) and bool(tries[0].handlers)
+    ctx.check("C19.detect", ok, where(MGR, "ConfigManager.guess_type", gt.lineno), "trial parse: a format that raises is skipped", "a parser rejecting the data must make the detection move on to the next format", "rejection moves on to the next format")
+    STRICT_EXTERNAL = {"DictJsonTransform": "json.loads"}      # json.loads raises on anything that is not a JSON document
+    for i, c in enumerate(order[:-1]):
+        later = [x.name for x in order[i + 1:]]
+        rv = c.methods.get("reverse")
+        wc = where(c.relpath, c.name + ".reverse", getattr(rv, "lineno", None))
+        if rv is None:
+            ctx.undecided("C19.detect", wc, c.name, "no reverse()")
+            continue
+        if c.name in STRICT_EXTERNAL:
+            okx = bool(calls_named(rv, STRICT_EXTERNAL[c.name].split(".")[-1]))
+            ctx.check("C19.detect", okx, wc, "%s tried before %s" % (c.name, later), "the parser no longer goes through %s" % STRICT_EXTERNAL[c.name], "strict external parser")
+            continue
+        # key=value style: per-line loop; `parts = <line>.split('=', 1)`; every path of the body for a significant line reads parts[1]
+        g = _CFG(rv)
+        splits = [n for n in g.live if n.kind == "stmt" and isinstance(n.stmt, ast.Assign) and isinstance(n.stmt.targets[0], ast.Name)
+                  and any(isinstance(x, ast.Call) and isinstance(x.func, ast.Attribute) and x.func.attr in ("split", "partition") and x.args and isinstance(x.args[0], ast.Constant) and x.args[0].value == "=" for x in ast.walk(n.stmt.value))]
+        if len(splits) != 1:
+            ctx.undecided("C19.detect", wc, "%s tried before %s" % (c.name, later), "could not find the single `parts = line.split('=', 1)` statement")
+            continue
+        parts = splits[0].stmt.targets[0].id
+        reads = [n for n in g.live if n.stmt is not None and n.kind == "stmt" and any(isinstance(x, ast.Subscript) and isinstance(x.value, ast.Name) and x.value.id == parts
+                                                                                      and isinstance(x.slice, ast.Constant) and x.slice.value == 1 for x in ast.walk(n.stmt))]
+        loop_nodes = [n for n in g.live if n.kind == "loop"]
+        escape = g.path(splits[0], lambda x: x in loop_nodes or x is g.exit, avoid=reads, edge_ok=lambda a, b, kk: kk != "exc") if reads else [splits[0]]
+        ctx.check("C19.detect", escape is None, wc, "%s tried before %s" % (c.name, later),
+                  "a line without '=' is accepted silently: a %s document (whose lines mostly have none, but whose base64 values end in '=') parses to a non-empty dict and an extension-less file in that format is detected as the wrong type" % "/".join(later),
+                  "a significant line without '=' raises (every path reads the value half of the split)")
+
+
 def open_calls(fn):
     out = []
     for n in ast.walk(fn):
@@ -305,6 +354,26 @@ def rule_atomic_dir(ctx):
         after = bool(good) and good[0].lineno > oc.lineno
         ctx.check("C19.atomic", bool(good) and samedir and after, where(TOOLS, "StorageTools.writeProfileData", oc.lineno), oc,
                   "the temporary file must live next to the target and be renamed over it (os.replace(tmp, target)) after the write", "temp file next to the target, then os.replace")
+        # the rename happens after the temporary file is closed (its buffered data written out): the with-statement that
+        # opened it must have been left - or, without a with, close() must dominate the rename
+        if good:
+            from ..cfg import CFG as _CFG
+            g = _CFG(wpd)
+            holder = [n for n in ast.walk(wpd) if isinstance(n, ast.With) and any(it.context_expr is oc for it in n.items)]
+            ren_nodes = [n for n in g.live if n.stmt is not None and n.kind == "stmt" and any(x is good[0] for x in ast.walk(n.stmt))]
+            if holder:
+                inside = any(x is good[0] for st_ in holder[0].body for x in ast.walk(st_))
+                closed = not inside
+            else:
+                fvar = None
+                for n in ast.walk(wpd):
+                    if isinstance(n, ast.Assign) and n.value is oc and isinstance(n.targets[0], ast.Name):
+                        fvar = n.targets[0].id
+                closes = [n for n in g.live if n.stmt is not None and n.kind == "stmt" and fvar and any(isinstance(x, ast.Call) and unparse(x.func) == fvar + ".close" for x in ast.walk(n.stmt))]
+                closed = bool(closes and ren_nodes) and all(any(g.dominates(c, r) for c in closes) for r in ren_nodes)
+            ctx.check("C19.atomic", closed, where(TOOLS, "StorageTools.writeProfileData", good[0].lineno), good[0],
+                      "the temporary file is renamed over the profile file while it is still open: its buffered content has not been written, so a crash right after the rename leaves an empty or partial config",
+                      "renamed after the temporary file was closed")
     # ---- C19.dir : abstract path algebra
     # paths are tuples of symbolic components; ensured = set of directories known to exist
     cp = repo.method(TOOLS, "StorageTools", "constructPath")
@@ -437,12 +506,14 @@ def run(ctx):
     ctx.rule("C19.maps", "forward/reverse maps, pipeline order, filters and meta agree", floor=12)
     ctx.rule("C19.ctor", "serialised attributes are constructor parameters mapped to their own attribute; accessors", floor=45)
     ctx.rule("C19.ext", "format tables and load paths", floor=6)
-    ctx.rule("C19.atomic", "temp file + rename on the profile save path", floor=2)
+    ctx.rule("C19.detect", "trial-parse auto-detection: earlier formats reject later formats' documents", floor=2)
+    ctx.rule("C19.atomic", "temp file + rename on the profile save path", floor=3)
     ctx.rule("C19.dir", "directory of the created file is ensured", floor=2)
     ctx.rule("C19.mode", "text/binary mode agreement of config files", floor=3)
     ctx.assume("os.replace is atomic on POSIX; JSON / key=value value round trip is not decided")
     rule_maps(ctx)
     rule_ctor(ctx)
     rule_ext(ctx)
+    rule_detect(ctx)
     rule_atomic_dir(ctx)
     rule_mode(ctx)
